@@ -279,7 +279,7 @@ def sx_bin(x):
     if isinstance(x, C.SymInt):
         if x < 0:
             return bin(x.__index__())       # complete enumeration of the (few) negative values by solver-driven forks
-        n = x.bit_length()
+        n = C._cidx(x.bit_length())          # the text length must be concrete: one fork per feasible magnitude class
         if n == 0:
             return '0b0'
         e = C._sx(x.e, max(x.e.size(), n))
